@@ -6,7 +6,7 @@ use refimpl::{planar, rle16};
 use serde::{Deserialize, Serialize};
 
 pub const LEVEL: &str = "exploration";
-pub const RULE: &str = "case = (window W x H, destination rectangle left/top/right/bottom drawn from in-range, edge, out-of-range and inverted values, image width/height equal to, smaller or larger than the rectangle, depth 16/32/other, raw or compressed (valid reference encoding or corrupt), data length matching or not). small-exhaustive enumerates every rectangle over coordinates 0..5 (plus 65535) for windows up to 4x4 with raw 32 bpp images of several sizes. Oracle: never a panic; the window buffer's spare capacity (canary region directly behind the buffer) is untouched; under the AddressSanitizer build any out-of-bounds read or write aborts the run; if the call returns Ok and the rectangle lies inside the window, every pixel outside the rectangle is unchanged and, when the decoded image covers the rectangle, the rectangle equals image rows 0..=bottom-top, columns 0..=right-left. Err is always acceptable. Non-trivial = an inside-window rectangle that was copied, or an out-of-window / inverted / mismatched geometry; distinct by hash of the case.";
+pub const RULE: &str = "case = (window W x H, destination rectangle left/top/right/bottom drawn from in-range, edge, out-of-range and inverted values, image width/height equal to, smaller or larger than the rectangle, depth 16/32/other, raw or compressed (valid reference encoding or corrupt), data length matching or not). Every event is painted twice, with other bitmaps (one of the same geometry) going through the decoder in between: two successful paintings must agree pixel for pixel (the decoded image is a function of the event alone). large: images and windows whose row offsets pass 65535. small-exhaustive enumerates every rectangle over coordinates 0..5 (plus 65535) for windows up to 4x4 with raw 32 bpp images of several sizes. Oracle: never a panic; the window buffer's spare capacity (canary region directly behind the buffer) is untouched; under the AddressSanitizer build any out-of-bounds read or write aborts the run; if the call returns Ok and the rectangle lies inside the window, every pixel outside the rectangle is unchanged and, when the decoded image covers the rectangle, the rectangle equals image rows 0..=bottom-top, columns 0..=right-left. Err is always acceptable. Non-trivial = an inside-window rectangle that was copied, or an out-of-window / inverted / mismatched geometry; distinct by hash of the case.";
 
 #[derive(Serialize, Deserialize, Hash, Clone, Debug)]
 pub struct Case {
